@@ -43,7 +43,7 @@ ID = "C17"
 LEVEL = "proof"
 MODULES = ["SqlframeModel.Props.C17"]
 GEN = ["Emulations"]
-SOURCES = ["SqlframeModel/Props/C17.lean", "SqlframeModel/Impl/C17.lean"]
+SOURCES = ["SqlframeModel/Props/C17.lean", "SqlframeModel/Impl/C17.lean", "SqlframeModel/Impl/C17Soundex.lean"]
 ORACLE = os.path.join(vlib.VERIF, "tools", "oracle", "spark_values.json")
 
 # ------------------------------------------------------------------------------------------------
@@ -63,6 +63,9 @@ def to_req(c: dict) -> t.Optional[dict]:
     fn, args = c["fn"], [_arg(a) for a in c["args"]]
     if c.get("tag") == "null-in" and fn != "array_position":
         return None
+    if fn == "soundex":
+        # the model's correspondence with util.soundex is claimed for ASCII strings (no NFKD, ASCII upper-casing)
+        return {"op": "soundex", "str": args[0]} if isinstance(args[0], str) and args[0].isascii() else None
     if fn == "factorial":
         return {"op": "factorial", "n": args[0]}
     if fn in ("element_at", "try_element_at", "getItem"):
@@ -235,6 +238,18 @@ def stream_a(ctx: Ctx) -> t.Tuple[int, t.List[str]]:
         n += 1
         if o.get("shape") != got:
             bad.append(f"{r['op']}: real expression {got} vs model {o.get('shape')}")
+
+    # util.soundex itself (the function the DuckDB session registers) vs the Lean transcription, on generated ASCII names
+    from sqlframe.base.util import soundex as real_soundex
+
+    names = list(K.SOUNDEX_NAMES) + [K.random_name(ctx.rng) for _ in range(600 if ctx.thorough else 150)]
+    names = [x for x in names if x.isascii()]
+    so = vlib.run_driver(ID, [{"case": i, "op": "soundex", "str": x} for i, x in enumerate(names)])
+    for x, o in zip(names, so):
+        n += 1
+        got = real_soundex(x)
+        if got != o.get("emul"):
+            bad.append(f"util.soundex({x!r}) = {got!r} vs the Lean transcription {o.get('emul')!r}")
 
     # DuckDB SQL text of each modelled emulation vs the text the generated constants imply
     consts = gen_constants()
@@ -675,7 +690,7 @@ def run(ctx: Ctx) -> None:
 
 
 OPEN_HYPOTHESES = {"slice": "H_sliceEnd", "sequence": "H_sequenceDefaultStep", "rint": "H_rintTies", "array_position": "H_arrayPositionNullArray"}
-MODELLED = {"factorial", "element_at", "try_element_at", "slice", "array_position", "sequence", "rint", "log1p", "expm1", "overlay", "date_add", "date_sub", "array_min", "array_max", "locate", "instr", "lpad", "rpad", "substring"}
+MODELLED = {"soundex", "factorial", "element_at", "try_element_at", "slice", "array_position", "sequence", "rint", "log1p", "expm1", "overlay", "date_add", "date_sub", "array_min", "array_max", "locate", "instr", "lpad", "rpad", "substring"}
 
 
 def replay(ctx: Ctx, rp: dict) -> None:
